@@ -30,7 +30,12 @@ OneVerdict(r, e, vars, res) ==
        IN IF je.st # "jet" THEN "inconclusive: original " \o (IF je.st = "bad" THEN je.why ELSE "none")
           ELSE IF jd.st = "bad" /\ jd.why = "error value" THEN "bad:error-value-in-derivative"
           ELSE IF jd.st # "jet" THEN "inconclusive: derivative " \o (IF jd.st = "bad" THEN jd.why ELSE "none")
-          ELSE IF JDer(je.j) = Trunc(jd.j) THEN "ok" ELSE "bad:derivative"
+          ELSE IF JDer(je.j) # Trunc(jd.j) THEN "bad:derivative"
+          \* integers and floats mixed: where the original evaluates with integer coordinates and the derivative evaluates with
+          \* float coordinates, the derivative must not be an error (value) with integer coordinates
+          ELSE IF "at" \in DOMAIN res /\ res.at.orig_int \in {"int", "float"} /\ res.at.der_float \in {"int", "float"}
+                  /\ res.at.der_int \in {"err", "evalerr", "panic", "none"} THEN "bad:derivative-fails-on-integer-coordinates"
+          ELSE "ok"
 \* classification of refuted derivatives for the known findings (see known_findings.json)
 RECURSIVE HasIntLit(_)
 HasIntLit(t) == CASE t.k = "num" -> ("v" \in DOMAIN t /\ \A j \in 1..Len(t.v) : t.v[j] # 46)
@@ -44,8 +49,13 @@ HasConstFalseIf(t, rpt) ==
     [] t.k = "bin" -> \/ (T[t.o].sem = "if" /\ TreeVars(t.r) = {} /\ LET c == CondVal(T, t.r, rpt) IN c.ok /\ ~c.b)
                       \/ HasConstFalseIf(t.l, rpt) \/ HasConstFalseIf(t.r, rpt)
     [] OTHER -> FALSE
+RECURSIVE HasVarExpPow(_)
+HasVarExpPow(t) == CASE t.k = "un" -> HasVarExpPow(t.a)
+                     [] t.k = "bin" -> (T[t.o].sem = "pow" /\ TreeVars(t.r) # {}) \/ HasVarExpPow(t.l) \/ HasVarExpPow(t.r) [] OTHER -> FALSE
 Classify(r, e, v) ==
-  IF v \notin {"bad:derivative", "bad:error-value-in-derivative"} THEN v
+  IF v \notin {"bad:derivative", "bad:error-value-in-derivative", "bad:derivative-fails-on-integer-coordinates"} THEN v
+  ELSE IF v = "bad:derivative-fails-on-integer-coordinates"
+       THEN (IF HasVarExpPow(e) THEN v \o "[F6: ln of an integer base]" ELSE v)
   ELSE IF HasIntLit(e) /\ HasDivPow(e) THEN v \o "[F6: integer literal with / or ^]"
   ELSE IF HasConstFalseIf(e, RPt(r)) THEN v \o "[F10: constant false condition]"
   ELSE v
